@@ -12,6 +12,9 @@ for d in sorted(glob.glob("/verif/seeded/*")):
     mp = os.path.join(d, "meta.json")
     m = json.load(open(mp))
     prop = m["property"]
+    if m.get("reclassified"):
+        print(name, "reclassified as property-preserving: not re-run", flush=True)
+        continue
     wt = tempfile.mkdtemp(prefix="mre-", dir="/tmp"); os.rmdir(wt)
     scratch = tempfile.mkdtemp(prefix="mre-out-", dir="/tmp")
     subprocess.check_call(["git", "-C", "/repo", "worktree", "add", "-q", "--detach", wt, "HEAD"])
